@@ -301,6 +301,9 @@ def runSched (j : Json) : Json :=
       let secs := σ.led.m.toList.foldl (fun (acc : Rat) (ks : Key × Slot) =>
         if ks.1.1 == r then acc + (usageOf ks.2.usage t).getD 0 else acc) 0
       secs / 3600 * (e.resD r).eff == (e.taskD t).effort)))
+  -- C06.framed_with_alternative: framed on one of the two candidates
+  let altFrameFail := altTasks.filter (fun t =>
+    !(((e.taskD t).alloc ++ (e.taskD t).alt).any (fun r => framedB e σ t r)))
   -- C03.bookings_on_one_candidate_set
   let oneSetFail := (List.range e.tasks.size).filter (fun t =>
     let rs := ((σ.led.m.toList.filter (fun (ks : Key × Slot) => (usageOf ks.2.usage t).isSome)).map (fun ks => ks.1.1)).eraseDups
@@ -352,6 +355,7 @@ def runSched (j : Json) : Json :=
                          ("teams_scheduled", Json.num (JsonNumber.fromNat teams.length)), ("team_exact_fail", Json.num (JsonNumber.fromNat teamFail.length)),
                          ("one_set_fail", Json.num (JsonNumber.fromNat oneSetFail.length)),
                          ("alt_tasks", Json.num (JsonNumber.fromNat altTasks.length)), ("alt_effort_fail", Json.num (JsonNumber.fromNat altFail.length)),
+                         ("alt_framed_fail", Json.num (JsonNumber.fromNat altFrameFail.length)),
                          ("teams_any", Json.num (JsonNumber.fromNat anyTeams.length)), ("team_same_fail", Json.num (JsonNumber.fromNat sameFail.length)),
                          ("fwd_scheduled", Json.num (JsonNumber.fromNat fwds.length)), ("dep_edges", Json.num (JsonNumber.fromNat depPairs.length)),
                          ("dep_fail", Json.num (JsonNumber.fromNat depFail.length)),
